@@ -14,7 +14,6 @@ import (
 	"bytes"
 	"fmt"
 	"go/ast"
-	"go/parser"
 	"go/printer"
 	"go/token"
 	"os"
@@ -97,7 +96,7 @@ func execFunc(f *ast.File, name string) *ast.FuncDecl {
 // syscall flags: `{Name: interopnames.X, ..., RequiredFlags: ...}` elements of pkg/core/interops.go.
 func execSyscallFlags(repo string, want []string) (map[string]int, error) {
 	fset := token.NewFileSet()
-	f, err := parser.ParseFile(fset, filepath.Join(repo, "pkg/core/interops.go"), nil, 0)
+	f, err := excParse(fset, filepath.Join(repo, "pkg/core/interops.go"))
 	if err != nil {
 		return nil, err
 	}
@@ -195,7 +194,7 @@ func execCacheScan(repo string) (writes []execRoWrite, roSites, rwSites int, err
 			continue
 		}
 		fset := token.NewFileSet()
-		f, perr := parser.ParseFile(fset, filepath.Join(dir, ent.Name()), nil, 0)
+		f, perr := excParse(fset, filepath.Join(dir, ent.Name()))
 		if perr != nil {
 			return nil, 0, 0, perr
 		}
@@ -321,7 +320,9 @@ func genExecFacts(repo string) (string, error) {
 		{nativenames.Policy, "unblockAccount", 1}, {nativenames.Management, "deploy", 2},
 		{nativenames.Management, "update", 2}, {nativenames.Management, "destroy", 0},
 		{nativenames.Designation, "designateAsRole", 2}, {nativenames.Policy, "setWhitelistFeeContract", 4},
-		{nativenames.Policy, "removeWhitelistFeeContract", 3}, {nativenames.Neo, "transfer", 4}, {nativenames.Neo, "vote", 2}}
+		{nativenames.Policy, "removeWhitelistFeeContract", 3}, {nativenames.Neo, "transfer", 4}, {nativenames.Neo, "vote", 2},
+		{nativenames.Neo, "registerCandidate", 1}, {nativenames.Neo, "unregisterCandidate", 1},
+		{nativenames.Oracle, "request", 5}, {nativenames.Notary, "lockDepositUntil", 2}, {nativenames.Notary, "withdraw", 2}}
 	var nerr error
 	flagsN := map[nm]int{}
 	func() {
@@ -364,7 +365,7 @@ func genExecFacts(repo string) (string, error) {
 
 	// 3. literal expressions of the layering mechanism
 	fset := token.NewFileSet()
-	callF, err := parser.ParseFile(fset, filepath.Join(repo, "pkg/core/interop/contract/call.go"), nil, 0)
+	callF, err := excParse(fset, filepath.Join(repo, "pkg/core/interop/contract/call.go"))
 	if err != nil {
 		return "", err
 	}
@@ -392,7 +393,7 @@ func genExecFacts(repo string) (string, error) {
 	if wrapExpr == "" {
 		return "", fmt.Errorf("assignment to `wrapped` not found in callExFromNative")
 	}
-	vmF, err := parser.ParseFile(fset, filepath.Join(repo, "pkg/vm/vm.go"), nil, 0)
+	vmF, err := excParse(fset, filepath.Join(repo, "pkg/vm/vm.go"))
 	if err != nil {
 		return "", err
 	}
@@ -426,7 +427,7 @@ func genExecFacts(repo string) (string, error) {
 			return true
 		})
 	}
-	bcF, err := parser.ParseFile(fset, filepath.Join(repo, "pkg/core/blockchain.go"), nil, 0)
+	bcF, err := excParse(fset, filepath.Join(repo, "pkg/core/blockchain.go"))
 	if err != nil {
 		return "", err
 	}
